@@ -1516,8 +1516,29 @@ class UTPM(Ring, RawAlgorithmsMixIn):
     @classmethod
     def det(cls, x):
         D,P = x.data.shape[:2]
-        PIV,L,U = cls.lu2(x)
+        try:
+            PIV,L,U = cls.lu2(x)
+        except numpy.linalg.LinAlgError:
+            # singular zeroth coefficient: the LU recursion needs inverses,
+            # the determinant itself is a polynomial in the entries
+            return cls._det_adj(x)[0]
         return cls.piv2det(PIV) * cls.prod(cls.diag(U))
+
+    @classmethod
+    def _det_adj(cls, x):
+        """
+        determinant and adjugate of x by the division-free Faddeev-LeVerrier
+        recursion (no condition on the zeroth coefficient)
+        """
+        N = x.data.shape[2]
+        I = numpy.eye(N)
+        M = x.zeros_like()
+        M.data[0] = I
+        c = -cls.trace(x)
+        for k in range(2,N+1):
+            M = cls.dot(x, M) + c * I
+            c = -cls.trace(cls.dot(x, M))/k
+        return (-1)**N * c, (-1)**(N-1) * M
 
     @classmethod
     def pb_det(cls, ybar, x, y, out = None):
@@ -1526,7 +1547,12 @@ class UTPM(Ring, RawAlgorithmsMixIn):
         else:
             xbar ,= out
 
-        PIV,L,U = cls.lu2(x)
+        try:
+            PIV,L,U = cls.lu2(x)
+        except numpy.linalg.LinAlgError:
+            # singular zeroth coefficient: xbar += ybar adj(x)^T
+            xbar += ybar * cls._det_adj(x)[1].T
+            return xbar
         d   = cls.diag(U)
         z   = cls.prod(d)
         y   = cls.piv2det(PIV) * z
